@@ -325,8 +325,17 @@ void zuc_encrypt(ZUC_STATE *state, const uint8_t *in, size_t inlen, uint8_t *out
 		}
 		LFSR[15] = V;
 
-		// xor with plaintext
-		Z ^= GETU32(in);
+		// xor with plaintext (the last word may be partial)
+		if (inlen >= 4) {
+			Z ^= GETU32(in);
+		} else {
+			uint8_t last[4] = {0};
+			size_t k;
+			for (k = 0; k < inlen; k++) {
+				last[k] = in[k];
+			}
+			Z ^= GETU32(last);
+		}
 
 		// output ciphertext
 		if (inlen >= 4) {
